@@ -19,6 +19,14 @@ Engine E2 (histories, DESIGN §2.2/§4 C09).  A generated project
                            tree; `shp-stubs/units/` exists at first without `__init__.pyi`;
                            `+stubs_init`/`-stubs_init` add/remove that file, `+stubs_mod`/
                            `-stubs_mod` add/remove `shp-stubs/units/extra.pyi`
+    pkg/alpha.py, beta.py  sub-modules of the regular package pkg that pkg/__init__.py never mentions;
+                           `-alpha`/`+alpha`/`+beta`/`-beta` remove/add them with __init__.py
+                           untouched; observed through the package's folder listing (`from pkg
+                           import ` and `pkg.` completion, `pkg.beta.fb`, goto on `alpha`)
+    app/pkg1/mod.py        a second buffer next to app/pkg1/sibling.py, analysed WITHOUT project=
+                           (jedi.api.project.get_default_project decides the root: no project
+                           marker exists above it); `+selfinit`/`-selfinit` add/remove
+                           app/pkg1/__init__.py, which moves that root
     m.py also defines `func(...)` and `K.__init__(...)` with a different parameter list in every
     version; `get_signatures` is asked inside `m.func()`, `func()`, `K()`, `m.K()`,
     `sub.subfunc()`, `pkg.relsub.subfunc()`.
@@ -57,7 +65,7 @@ Classification of a difference at the last step of a history (DESIGN §2.7):
 
 Levels (simplest first; a level's maximal histories have exactly the stated depth, every shorter
 history is one of their prefixes and is judged on the way):
-  quick     full alphabet (24 events) depth<=1 with <=1 deviation (file clock ~s/~o on the 15
+  quick     full alphabet (30 events) depth<=1 with <=1 deviation (file clock ~s/~o on the 15
             writing events of the original alphabet, wall clock ~w on every event); depth<=2
             with <=1 file-clock deviation; restart-free 6-event core depth<=3 without deviation
   thorough  + depth<=2 with the wall-clock answer; 8-event core depth<=3, full alphabet
@@ -82,7 +90,7 @@ import traceback
 from .. import boot, canon, pool
 
 ID = 'C09'
-BUDGET = {'quick': 900, 'thorough': 3000}
+BUDGET = {'quick': 1800, 'thorough': 3600}
 
 T0 = 2000000000          # virtual file clock origin (in the future: parso never expires it)
 OLD = T0 - 1000          # mtime of a file "moved into place" (~o)
@@ -122,6 +130,28 @@ SHP = {
     'shp-stubs/__init__.pyi': "",
     'shp-stubs/units/tables.pyi': "SI: dict\n",
 }
+# sub-modules of the regular package pkg that its __init__.py never mentions: alpha exists from
+# the start, beta does not; `-alpha`/`+alpha`/`+beta`/`-beta` remove/add them, __init__.py untouched
+ALPHA = ('pkg/alpha.py', "fa = 10\n")
+BETA = ('pkg/beta.py', "fb = ''\n")
+# a second edited file, analysed WITHOUT project=: app/pkg1/mod.py next to app/pkg1/sibling.py; no
+# project marker anywhere above it, so get_default_project() takes the first folder upwards
+# without __init__.py; `+selfinit`/`-selfinit` add/remove app/pkg1/__init__.py
+SIBLING = ('app/pkg1/sibling.py', "def f():\n    return 1.0\n")
+SELFINIT = ('app/pkg1/__init__.py', "")
+MOD = (
+    "import pkg1.sibling\n"        # 1
+    "from . import sibling\n"      # 2
+    "pkg1.sibling.f\n"             # 3
+    "sibling.f\n"                  # 4
+    "from pkg1 import \n"          # 5
+)
+PROBES_MOD = [
+    ('default-project', 'goto', 1, 13), ('default-project', 'infer', 3, 14),
+    ('default-project', 'gotof', 3, 14), ('default-project', 'goto', 2, 16),
+    ('default-project', 'infer', 4, 9), ('default-project', 'gotof', 4, 9),
+    ('default-project', 'complete', 5, 17),
+]
 STUBS_INIT = ('shp-stubs/units/__init__.pyi', "def unit(s: object) -> bytes: ...\n")
 STUBS_MOD = ('shp-stubs/units/extra.pyi', "def label(s: object) -> str: ...\n")
 
@@ -171,8 +201,13 @@ MAIN = (
     "ru\n"                          # 43
     "rl\n"                          # 44
     "SI\n"                          # 45
+    "import pkg.beta\n"             # 46
+    "pkg.beta.fb\n"                 # 47
+    "from pkg import alpha\n"       # 48
+    "alpha.fa\n"                    # 49
+    "pkg.alpha.fa\n"                # 50
 )
-PROJECT_NAMES = ('m', 'n', 'pkg', 'star', 'main', 'sub', 'conf', 'lib', 'shp')
+PROJECT_NAMES = ('m', 'n', 'pkg', 'star', 'main', 'sub', 'conf', 'lib', 'shp', 'app')
 
 # (form, method, line, column)
 PROBES = [
@@ -200,17 +235,26 @@ PROBES = [
     ('from-pkg-import-sub', 'sigs', 36, 12), ('relative-in-pkg', 'sigs', 37, 19),
     ('stub-tree', 'goto', 38, 23), ('stub-tree', 'goto', 39, 29), ('stub-tree', 'infer', 43, 2),
     ('stub-tree', 'infer', 44, 2), ('stub-tree', 'infer', 45, 2), ('stub-tree', 'gotof', 45, 2),
+    ('package-listing', 'goto', 46, 12), ('package-listing', 'infer', 47, 10),
+    ('package-listing', 'goto', 48, 18), ('package-listing', 'infer', 48, 18),
+    ('package-listing', 'infer', 49, 7), ('package-listing', 'infer', 50, 11),
+    ('package-listing', 'gotof', 50, 6),
 ]
+ALL_PROBES = [p_ + ('main.py',) for p_ in PROBES] + [p_ + ('app/pkg1/mod.py',) for p_ in PROBES_MOD]
+BUFFERS = {'main.py': MAIN, 'app/pkg1/mod.py': MOD}
 
 # ------------------------------------------------------------------------------------------
 # pure model of the file system under the event alphabet
 # ------------------------------------------------------------------------------------------
 FULL = ['wA', 'wB', 'wC', 'del', 'm2p', 'p2m', '+init', '-init', '+pyi', '-pyi', 'ren', 'unren',
         'touch', 'restart', 'sB', 'sA', 'shadow+', 'shadow-', 'm2p_keep', 'p2m_keep',
-        '+stubs_init', '-stubs_init', '+stubs_mod', '-stubs_mod']
+        '+stubs_init', '-stubs_init', '+stubs_mod', '-stubs_mod',
+        '-alpha', '+alpha', '+beta', '-beta', '+selfinit', '-selfinit']
 # file clock advances only for these (no ~s / ~o); `restart` takes no answer at all
 NO_ANSWER = ('restart', 'shadow+', 'shadow-', 'm2p_keep', 'p2m_keep',
-             '+stubs_init', '-stubs_init', '+stubs_mod', '-stubs_mod')
+             '+stubs_init', '-stubs_init', '+stubs_mod', '-stubs_mod',
+             '-alpha', '+alpha', '+beta', '-beta', '+selfinit', '-selfinit')
+ADD_REMOVE = {'alpha': ALPHA, 'beta': BETA, 'selfinit': SELFINIT}
 CORE = ['wB', 'wC', 'del', 'm2p', 'p2m', '+pyi', 'ren', 'restart']
 CORE6 = ['wB', 'wC', 'del', 'm2p', '+pyi', 'm2p_keep']     # quick tier's depth-3 level (no restart)
 ANSWERS = ('', '~s', '~o')        # advance (default) | same tick | older file mtime
@@ -224,9 +268,9 @@ class FS:
         self.tick = T0
         self.files = {}
         self.dirs = {'': T0, 'pkg': T0, 'lib': T0, 'shp': T0, 'shp/units': T0, 'shp-stubs': T0,
-                     'shp-stubs/units': T0}
+                     'shp-stubs/units': T0, 'app': T0, 'app/pkg1': T0}
         for p, c in (('m.py', M_VER['A']), ('star.py', STAR), ('pkg/__init__.py', INIT),
-                     ('pkg/sub.py', SUB_VER['A']), ('lib/conf.py', CONF_LIB)) + tuple(SHP.items()):
+                     ('pkg/sub.py', SUB_VER['A']), ('lib/conf.py', CONF_LIB), ALPHA, SIBLING) + tuple(SHP.items()):
             self.files[p] = [c, T0]
         self.log = []          # real-FS operations of the last event
 
@@ -254,6 +298,8 @@ class FS:
             return k == 'mod'
         if ev in ('p2m', 'p2m_keep'):
             return k == 'pkg'
+        if ev[1:] in ADD_REMOVE:
+            return (ADD_REMOVE[ev[1:]][0] in self.files) == (ev[0] == '-')
         if ev in ('+stubs_init', '-stubs_init'):
             return (STUBS_INIT[0] in self.files) == (ev[0] == '-')
         if ev in ('+stubs_mod', '-stubs_mod'):
@@ -341,6 +387,11 @@ class FS:
             self._write('m/__init__.py', M_VER[_next_ver(self.files['m.py'][0])])
         elif ev == 'p2m_keep':      # a module file appears next to the package, which stays
             self._write('m.py', M_VER[_next_ver(self.files['m/__init__.py'][0])])
+        elif ev[1:] in ADD_REMOVE:  # a file appears / disappears, nothing else is touched
+            if ev[0] == '+':
+                self._write(*ADD_REMOVE[ev[1:]])
+            else:
+                self._remove(ADD_REMOVE[ev[1:]][0])
         elif ev == '+stubs_init':   # the stub folder of the sub-package becomes a stub package
             self._write(*STUBS_INIT)
         elif ev == '-stubs_init':
@@ -553,15 +604,24 @@ def _battery(jedi, env, project, root):
     """-> list (one entry per probe) of JSON observations.  A new Script per call; the Project
     and the Environment are the caller's and live as long as the process (what an editor
     plugin does)."""
-    script = jedi.Script(MAIN, path=os.path.join(root, 'main.py'), environment=env,
-                         project=project)
     obs = []
-    for form, method, line, col in PROBES:
+    scripts = {}
+    for form, method, line, col, buf in ALL_PROBES:
         try:
+            script = scripts.get(buf)
+            if script is None:
+                if buf == 'main.py':
+                    script = jedi.Script(MAIN, path=os.path.join(root, buf), environment=env,
+                                         project=project)
+                else:       # no project=: jedi detects the default project of the file's folder
+                    script = jedi.Script(BUFFERS[buf], path=os.path.join(root, buf),
+                                         environment=env)
+                scripts[buf] = script
+
             if method == 'complete':
                 res = script.complete(line, col)
                 names = sorted([c.name, c.type] for c in res)
-                if line == 26:
+                if line == 26 and buf == 'main.py':
                     names = [x for x in names if x[0] in PROJECT_NAMES]
                 o = names
             elif method == 'infer':
@@ -945,10 +1005,10 @@ def judge(events, obs, expected):
     """Difference of the last step's observation from the oracle's -> None | (site, detail)."""
     if obs == expected:
         return None
-    diffs = [i for i in range(len(PROBES)) if obs[i] != expected[i]]
+    diffs = [i for i in range(len(ALL_PROBES)) if obs[i] != expected[i]]
     steps = walk(events)
     why = poison(steps)
-    first = PROBES[diffs[0]]
+    first = ALL_PROBES[diffs[0]]
     o = obs[diffs[0]]
     if len(o) == 3 and o[0] == 'EXC':
         site = o[1]               # an exception the fresh process does not raise
@@ -961,8 +1021,8 @@ def judge(events, obs, expected):
     detail = {
         'history': events,
         'files_now': {p: c for p, c in steps[-1][1] if c is not None},
-        'differing_probes': [list(PROBES[i]) for i in diffs][:12],
-        'first_probe': {'probe': list(first), 'source_line': MAIN.split('\n')[first[2] - 1],
+        'differing_probes': [list(ALL_PROBES[i]) for i in diffs][:12],
+        'first_probe': {'probe': list(first), 'source_line': BUFFERS[first[4]].split('\n')[first[2] - 1],
                         'observed': obs[diffs[0]], 'expected_fresh_process': expected[diffs[0]]},
         'clock_explanation': why,
     }
@@ -1011,16 +1071,16 @@ def _confirm_isolated(events):
 def _families(tier):
     """(level name, alphabet, exact depth of the maximal histories, max clock deviations, wall-clock
     answer explored?); simplest first.  Every history of smaller depth is a prefix of one of these."""
-    quick = [('full24/depth<=1/dev<=1+wall', FULL, 1, 1, True),
-             ('full24/depth<=2/dev<=1', FULL, 2, 1, False),
+    quick = [('full30/depth<=1/dev<=1+wall', FULL, 1, 1, True),
+             ('full30/depth<=2/dev<=1', FULL, 2, 1, False),
              ('core6/depth<=3/dev=0', CORE6, 3, 0, False)]
     if tier == 'quick':
         return quick
     # File-clock deviations stay at depth <= 2 in both tiers, so that the explicit list of inputs
     # of the two clock findings in known_findings.json is the same for quick and thorough.
-    return quick + [('full24/depth<=2/dev<=1+wall', FULL, 2, 1, True),
+    return quick + [('full30/depth<=2/dev<=1+wall', FULL, 2, 1, True),
                     ('core8/depth<=3/dev=0', CORE, 3, 0, False),
-                    ('full24/depth<=3/dev=0', FULL, 3, 0, False),
+                    ('full30/depth<=3/dev=0', FULL, 3, 0, False),
                     ('core8/depth<=4/dev=0', CORE, 4, 0, False),
                     ('core8/depth<=5/dev=0', CORE, 5, 0, False)]
 
@@ -1129,7 +1189,7 @@ def run(ctx):
             for e in t['events']:
                 event_hits[e] = event_hits.get(e, 0) + 1
             for s in r['steps']:
-                transitions += len(PROBES)
+                transitions += len(ALL_PROBES)
                 pid_ = hid(t['events'][:s['k']])
                 obs_classes.add((s['snap'], s['digest']))
                 if pid_ in prefixes:
@@ -1141,7 +1201,7 @@ def run(ctx):
                     n_dev += 1
                 if s['nonempty'] < 5:
                     ctx.note('vacuity warning: %s answers only %d of %d probes'
-                             % (pid_, s['nonempty'], len(PROBES)))
+                             % (pid_, s['nonempty'], len(ALL_PROBES)))
                 if s['bad']:
                     verdicts[pid_] = s['bad']
                     preceding[pid_] = r.get('preceding') or []
@@ -1211,7 +1271,7 @@ def run(ctx):
         'levels_completed': done_levels, 'exhaustive': exhaustive,
         'event_hits': dict(sorted(event_hits.items())),
         'events_never_enabled': sorted(set(FULL) - {split_event(e)[0] for e in event_hits}),
-        'probes': [list(p) for p in PROBES],
+        'probes': [list(p) for p in ALL_PROBES],
         'samples': [{'history': h, 'snapshot_paths': [p for p, _c in walk(h)[-1][1]]}
                     for _n, hs in plans for h in hs[len(hs) // 2:len(hs) // 2 + 1]],
     })
